@@ -828,6 +828,99 @@ impl<T: Fam> Fam for NtOf<T> {
     }
 }
 
+// ---- the two-step map protocol and flattening ------------------------------------------------
+// std maps go through serialize_entry; hand-written impls and #[serde(flatten)] use the two-step
+// protocol serialize_key / serialize_value on one map object (seed C14-d1)
+
+#[derive(PartialEq, Debug, Clone)]
+pub struct TwoStep(pub Vec<(String, u8)>);
+
+impl Serialize for TwoStep {
+    fn serialize<S: serde::Serializer>(&self, ser: S) -> Result<S::Ok, S::Error> {
+        use serde::ser::SerializeMap;
+        let mut m = ser.serialize_map(Some(self.0.len()))?;
+        for (k, v) in &self.0 {
+            m.serialize_key(k)?;
+            m.serialize_value(v)?;
+        }
+        m.end()
+    }
+}
+impl<'de> serde::Deserialize<'de> for TwoStep {
+    fn deserialize<D: serde::Deserializer<'de>>(de: D) -> Result<Self, D::Error> {
+        struct V;
+        impl<'de> serde::de::Visitor<'de> for V {
+            type Value = TwoStep;
+            fn expecting(&self, f: &mut std::fmt::Formatter) -> std::fmt::Result {
+                f.write_str("a map")
+            }
+            fn visit_map<A: serde::de::MapAccess<'de>>(self, mut a: A) -> Result<TwoStep, A::Error> {
+                let mut out = Vec::new();
+                while let Some(k) = a.next_key::<String>()? {
+                    let v = a.next_value::<u8>()?;
+                    out.push((k, v));
+                }
+                Ok(TwoStep(out))
+            }
+        }
+        de.deserialize_map(V)
+    }
+}
+impl Fam for TwoStep {
+    fn tname() -> String {
+        "TwoStep (hand-written map impl: serialize_key + serialize_value)".into()
+    }
+    fn inhabitants(_b: &Budget) -> Vec<Self> {
+        let mk = |ks: &[&str]| TwoStep(ks.iter().enumerate().map(|(i, k)| (k.to_string(), (i * 7) as u8)).collect());
+        vec![mk(&[]), mk(&["a"]), mk(&["a", "b"]), mk(&["one", "two", "three"]), mk(&["λ", "", "k k", "z"]), TwoStep((0..40).map(|i| (format!("k{}", i), i as u8)).collect())]
+    }
+    fn sh(&self) -> Sh {
+        Sh::Alist(self.0.iter().map(|(k, v)| (k.sh(), v.sh())).collect())
+    }
+}
+
+#[derive(Serialize, Deserialize, PartialEq, Debug, Clone)]
+pub struct FlatInner {
+    pub x: u8,
+    pub y: String,
+}
+#[derive(Serialize, Deserialize, PartialEq, Debug, Clone)]
+pub enum FlatEnum {
+    P { p: u8, q: u8 },
+    Q { r: String },
+}
+#[derive(Serialize, Deserialize, PartialEq, Debug, Clone)]
+pub struct Flat {
+    pub id: u8,
+    #[serde(flatten)]
+    pub inner: FlatInner,
+    #[serde(flatten)]
+    pub e: FlatEnum,
+    pub last: Option<u8>,
+}
+impl Fam for Flat {
+    fn tname() -> String {
+        "Flat { id, #[flatten] FlatInner { x, y }, #[flatten] enum { P { p, q } | Q { r } }, last }".into()
+    }
+    fn inhabitants(_b: &Budget) -> Vec<Self> {
+        let mut v = Vec::new();
+        for (i, y) in ["", "y", "λ y"].iter().enumerate() {
+            v.push(Flat { id: i as u8, inner: FlatInner { x: 9, y: y.to_string() }, e: FlatEnum::P { p: 1, q: 2 }, last: None });
+            v.push(Flat { id: 200, inner: FlatInner { x: 0, y: y.to_string() }, e: FlatEnum::Q { r: y.to_string() }, last: Some(i as u8) });
+        }
+        v
+    }
+    fn sh(&self) -> Sh {
+        // a flattened struct contributes its fields; a flattened externally tagged enum contributes
+        // one entry: variant name -> its fields
+        let e = match &self.e {
+            FlatEnum::P { p, q } => (Sh::A(RV::str("P")), Sh::Alist(vec![(Sh::sym("p"), p.sh()), (Sh::sym("q"), q.sh())])),
+            FlatEnum::Q { r } => (Sh::A(RV::str("Q")), Sh::Alist(vec![(Sh::sym("r"), r.sh())])),
+        };
+        Sh::Alist(vec![(Sh::A(RV::str("id")), self.id.sh()), (Sh::A(RV::str("x")), self.inner.x.sh()), (Sh::A(RV::str("y")), self.inner.y.sh()), e, (Sh::A(RV::str("last")), self.last.sh())])
+    }
+}
+
 // ---- registry --------------------------------------------------------------------------------
 
 pub enum DeOutcome {
@@ -1053,6 +1146,7 @@ pub const N_CORE: usize = 50;
 pub fn family() -> Vec<Box<dyn Runner>> {
     let mut v = family_core();
     assert_eq!(v.len(), N_CORE);
+    v.extend(reg![TwoStep, Vec<TwoStep>, Flat]);
     v.extend(reg_positions![
         (), u64, f64, String, ByteBuf, Option<u8>, Option<Option<u8>>, Option<()>, Option<Vec<u8>>, Vec<u8>, Vec<Option<u8>>, Vec<Vec<()>>,
         (u8, String), [u8; 0], UnitS, Tup0S, EmptyS, K, E, BTreeMap<String, Option<u8>>, NewtypeS,
